@@ -431,7 +431,7 @@ def instances(tier, seed):
                 pats.append((sl, "int"))
                 pats.append((sl, "ellipsis", "int"))
         if rank >= 2:
-            for s1, s2 in itertools.product(S[:5], repeat=2) if tier != "quick" else [(S[3], S[4]), (S[4], S[3]), (S[1], S[2])]:
+            for s1, s2 in itertools.product(S[:5], repeat=2) if tier != "quick" else [(S[3], S[3]), (S[1], S[2]), (S[5], S[3])]:
                 pats.append((s1, s2))
         pats += [("int",), ("none",), ("ellipsis",), ("ellipsis", "none"), ("int", "ellipsis")]
         for p in pats:
